@@ -56,6 +56,15 @@ def check_masked(inp):
     return f'NaN gradient (n={n}, size={size}, reg={use_reg})'
   if not close(got, want):
     return f'gradient of the padded batch differs from the unpadded one (n={n}, padded to {size}, reg={use_reg}): {got} vs {want}'
+  # the Model-based entry points are the same functions: model_grad(model, reg) = grad(model_per_example_loss(model), reg)
+  mdl = models.Model(init=None, apply_for_train=lambda p_, b_, k_: b_['x'] @ p_['w'] + p_['b'],
+                     apply_for_eval=None, train_loss=lambda b_, out: (out - b_['y']) ** 2, eval_metrics={})
+  got_m = models.model_grad(mdl, r)(params, {k: jnp.asarray(v) for k, v in pad(data, size, rng).items()}, key)
+  if not close(got_m, want):
+    return f'model_grad of the padded batch differs from grad of the unpadded one (n={n}, padded to {size}, reg={use_reg})'
+  pel_m = models.model_per_example_loss(mdl)
+  if n > 0 and not np.allclose(np.asarray(pel_m(params, data, key)), np.asarray(pel(params, data, key)), rtol=1e-5, atol=1e-6):
+    return 'model_per_example_loss differs from train_loss(batch, apply_for_train(params, batch, rng))'
   # average loss over different batchings
   def ref_loss():
     if n == 0:
